@@ -64,10 +64,74 @@ fn res(x: u64) -> Result<u64> {
     Ok(x.div_ceil(8).min(5))
 }
 
-fn bad_loop(x: u64) -> u64 { let mut r = 0; for i in 0..x { r += i; } r }
-fn bad_q(x: u64) -> Result<u64> { Ok(res(x)? + 1) }
+enum Kind { Inline, Tree, Other }
+enum Payload { A, B(u32) }
+
+impl From<u8> for Kind {
+    fn from(value: u8) -> Self {
+        match value {
+            1 => Inline,
+            3 | 4 => Kind::Tree,
+            _ => unreachable!(),
+        }
+    }
+}
+
+impl Kind {
+    fn to_byte(&self) -> u8 {
+        match self { Kind::Inline => 1, Kind::Tree => 3, Kind::Other => 9 }
+    }
+    fn is_tree(&self) -> bool { matches!(self, Kind::Tree | Kind::Other) }
+}
+
+fn get_u32(data: &[u8]) -> u32 {
+    u32::from_le_bytes(data[..size_of::<u32>()].try_into().unwrap())
+}
+
+fn field(data: &[u8], n: usize) -> Option<u32> {
+    if n >= 4 {
+        return None;
+    }
+    let off = 4 + 4 * n;
+    let end = u32::from_le_bytes(data.get(off..(off + 4))?.try_into().unwrap());
+    Some(end + u32::from(data[0]))
+}
+
+fn two(data: &[u8]) -> Option<(u32, u32)> { Some((field(data, 0)?, field(data, 1)?)) }
+
+fn sum(data: &[u8], n: usize) -> u64 {
+    let mut acc = 0u64;
+    for i in 0..n {
+        acc += u64::from(data[i]);
+    }
+    acc
+}
+
+fn cmp2(a: u64, b: u64, c: u32, d: u32) -> Ordering {
+    match a.cmp(&b) {
+        Ordering::Less => Ordering::Less,
+        Ordering::Equal => c.cmp(&d),
+        core::cmp::Ordering::Greater => Ordering::Greater,
+    }
+}
+
+fn horizon(o: Option<u64>, id: u64) -> u64 { o.map_or(id, |x| x + 1) }
+
+fn write(a: u64, flag: bool) -> [u8; 2 * size_of::<u64>()] {
+    let mut result = [0u8; 2 * size_of::<u64>()];
+    result[..size_of::<u64>()].copy_from_slice(&a.to_le_bytes());
+    result[15] = u8::from(flag);
+    result
+}
+
+fn bad_loop(x: u64) -> u64 { let mut r = 0; loop { r += 1; } }
+fn bad_for(v: &[u8]) -> u64 { let mut r = 0; for b in v.iter() { r += 1; } r }
+fn bad_q(x: u64) -> Option<u64> { if x > 1 && res(x)? > 2 { Some(1) } else { None } }
+fn bad_q2(x: u64) -> u64 { res(x)? + 1 }
 fn bad_call(x: u64) -> u64 { unknown_fn(x) }
-fn bad_index(v: &[u8]) -> u8 { v[0] }
+fn bad_index(v: u64) -> u64 { v[0] }
+fn bad_enum(p: Payload) -> u8 { match p { Payload::A => 1, _ => 2 } }
+fn bad_closure(o: Option<u64>) -> u64 { let f = |x| x + 1; f(2) }
 '''
 
 EXPECT = {
@@ -88,8 +152,30 @@ EXPECT = {
     "sink": "(if (n <? 10) then let out := (out ++ [n]) in out else let v := n in "
             "let out := (out ++ le_encode 2%nat v) in out)",
     "res": "(if (x =? 0) then None else (Some (N.min (div_ceil x 8) 5)))",
+    # wave 2: enums, byte slices, `?`, `for`, Ordering, closures in map_or, writes into a byte buffer
+    "Kind_from": "(if (value =? 1) then Kind_Inline else if (orb (value =? 3) (value =? 4)) then Kind_Tree else Kind_Inline)",
+    "Kind_from_guard": "let g_ := true in (if (value =? 1) then g_ else if (orb (value =? 3) (value =? 4)) then g_ else "
+                       "let g_ := (andb g_ false) in g_)",
+    "Kind_to_byte": "(match self with | Kind_Inline => 1 | Kind_Tree => 3 | Kind_Other => 9 end)",
+    "Kind_is_tree": "(match self with Kind_Tree | Kind_Other => true | _ => false end)",
+    "get_u32": "(le_decode (slice_to data 4))",
+    "get_u32_guard": "let g_ := true in let g_ := (andb g_ (4 <=? slen data)) in "
+                     "let g_ := (andb g_ (slen (slice_to data 4) =? 4)) in g_",
+    "field": "(if (4 <=? n) then None else let off := (4 + (4 * n)) in match (slice_get data off (off + 4)) with "
+             "| Some q1_ => let end_ := (le_decode q1_) in (Some (end_ + (byte_at data 0))) | None => None end)",
+    "two": "match (field data 0) with | Some q1_ => match (field data 1) with | Some q2_ => (Some (q1_, q2_)) "
+           "| None => None end | None => None end",
+    "sum": "let acc := 0 in let acc := for_range 0 n (fun i acc => let acc := (acc + (byte_at data i)) in acc) acc in acc",
+    "sum_guard": "let g_ := true in let acc := 0 in let '(acc, g_) := for_range 0 n (fun i st_ => let '(acc, g_) := st_ in "
+                 "let g_ := (andb g_ (i <? slen data)) in let acc := (acc + (byte_at data i)) in (acc, g_)) (acc, g_) in g_",
+    "cmp2": "(match (a ?= b) with | Lt => Lt | Eq => (c ?= d) | Gt => Gt end)",
+    "horizon": "(match o with Some x => (x + 1) | None => id end)",
+    "write": "let result := (rep 0 (2 * 8)) in let result := (splice result 0 (le_encode 8%nat a)) in "
+             "let result := (set_byte result 15 (b2n flag)) in result",
 }
-REJECT = {"bad_loop": "loop statement", "bad_q": "`?` operator", "bad_call": "unknown_fn", "bad_index": "indexing"}
+REJECT = {"bad_loop": "loop statement", "bad_for": "not a range", "bad_q": "cannot be hoisted",
+          "bad_q2": "does not return Option/Result", "bad_call": "unknown_fn", "bad_index": "indexing a value of type",
+          "bad_enum": "type outside the translated subset", "bad_closure": "closure"}
 
 
 def norm(s):
@@ -105,8 +191,17 @@ def run():
             fh.write(RUST)
         want = [("src/t.rs", q, {}) for q in
                 ["Pt::sum", "Pt::make", "Holder::need", "mutate", "early", "shifts", "sink", "res"]]
+        want += [("src/t.rs", "Kind::from", {"trait": "From<u8>"})]
+        want += [("src/t.rs", q, {}) for q in
+                 ["Kind::to_byte", "Kind::is_tree", "get_u32", "field", "two", "sum", "cmp2", "horizon", "write"]]
         want += [("src/t.rs", q, {}) for q in REJECT]
-        body, errors = gen_fns.generate(tmp, want=want, structs=[("src/t.rs", "Pt")])
+        body, errors = gen_fns.generate(tmp, want=want, structs=[("src/t.rs", "Pt")],
+                                        enums=[("src/t.rs", "Kind"), ("src/t.rs", "Payload")])
+        if not any("Payload" in e and "not a unit variant" in e for e in errors):
+            ok = False
+            print("selftest FAIL enum Payload (a variant with a payload) should be rejected; errors: %s" % errors)
+        else:
+            print("selftest ok   enum Payload rejected: variant with a payload")
         defs = {}
         for m in re.finditer(r"^Definition (\w+)[^\n]*:=\n(.*?)\.\n(?=Definition|\n|$)", body, flags=re.M | re.S):
             defs[m.group(1)] = norm(m.group(2))
